@@ -257,7 +257,7 @@ func stanzaErrBody(c *nd.Ctx) nd.Result {
 			e.Text[textLangs[li]] = strPool[c.Choose(len(strPool), "text")]
 		}
 	}
-	carrier := c.Choose(2, "carrier") // 0 bare, 1 inside an IQ via UnmarshalError
+	carrier := c.Choose(2+2*len(echoed), "carrier") // 0 bare, 1 inside an IQ via UnmarshalIQError, 2.. inside an error stanza that echoes the sender's payload first (client / server namespace)
 	desc := normErr(e)
 	c.Note("stanza.Error{%s} carrier=%d", desc, carrier)
 	res := nd.Result{Outcome: "stanza-error", NonTrivial: desc}
@@ -269,7 +269,35 @@ func stanzaErrBody(c *nd.Ctx) nd.Result {
 	return res
 }
 
+// echoed: payloads of the original stanza that an error stanza carries in
+// front of its error element; their descendants named "error" are not the
+// stanza error.
+var echoed = []string{
+	`<query xmlns='urn:q'><item><error code='7'>boom</error></item></query>`,
+	`<x xmlns='urn:x'><message xmlns='%NS%' type='error'><error type='auth'><forbidden xmlns='urn:ietf:params:xml:ns:xmpp-stanzas'/></error></message></x>text`,
+}
+
 func checkStanzaErr(e stanza.Error, desc string, carrier int) *nd.Violation {
+	if carrier >= 2 {
+		ns := []string{stanza.NSClient, stanza.NSServer}[(carrier-2)%2]
+		payload := strings.ReplaceAll(echoed[(carrier-2)/2], "%NS%", ns)
+		eb, err := xu.Render(e.TokenReader())
+		if err != nil {
+			return viol("stanza-error:token-path-error", "%s: %v", desc, err)
+		}
+		for _, kind := range []string{"message", "presence", "iq"} {
+			doc := fmt.Sprintf(`<%s xmlns='%s' type='error' id='e1'>%s%s</%s>`, kind, ns, payload, eb, kind)
+			d := xml.NewDecoder(strings.NewReader(doc))
+			if _, err := d.Token(); err != nil {
+				return viol("stanza-error:harness", "%s: %v", doc, err)
+			}
+			got, uerr := stanza.UnmarshalError(d)
+			if uerr != nil || normErr(got) != desc {
+				return viol("stanza-error:unmarshal-error-beside-echoed-payload", "%s: UnmarshalError over %s = {%s}, %v", desc, doc, normErr(got), uerr)
+			}
+		}
+		return nil
+	}
 	mb, err := xml.Marshal(e)
 	if err != nil {
 		return viol("stanza-error:marshal-error", "%s: %v", desc, err)
